@@ -128,6 +128,9 @@ def _step(Stream, pool, op):
                 out.append(x)
             return _items(out)
         return _items(list(s))
+    if o == "nextattr":
+        r = s.__next__ if op.get("dunder", True) else next(s)     # AttributeError / TypeError: not an iterator
+        return {"err": "returned:" + repr(r)[:40]}
     if o == "copy":
         pool.append(s.copy())
         return {"new": [len(pool) - 1]}
@@ -184,7 +187,7 @@ def history(rng, length, copies):
             continue
         i = rng.choice(alive)
         o = rng.choice(["take"] * 5 + ["next"] * 3 + ["map"] * 3 + ["filter"] * 2 + ["skip"] * 2 + ["limit"] * 2 +
-                       ["append", "drain", "attr", "attr"] + (["peek"] * 3 + ["copy"] * 2 if copies else []))
+                       ["append", "drain", "attr", "attr", "nextattr"] + (["peek"] * 3 + ["copy"] * 2 if copies else []))
         if o in ("take", "peek"):
             op = {"op": o, "i": i, "n": _count(rng)}
             if op["n"]["t"] == "none" and rng.random() < 0.5:
